@@ -70,6 +70,17 @@ fn split_top_level(s: &str) -> Vec<String> {
 
 /// Exported functions of all `#[contractimpl]` blocks in the `.rs` files directly under `dir`.
 pub fn exported_fns(dir: &Path) -> Vec<FnSig> {
+    // the tree does not change while a check runs: read each directory once per process
+    static CACHE: std::sync::Mutex<Option<std::collections::HashMap<std::path::PathBuf, Vec<FnSig>>>> = std::sync::Mutex::new(None);
+    if let Some(v) = CACHE.lock().unwrap().get_or_insert_with(Default::default).get(dir) {
+        return v.clone();
+    }
+    let v = scan_exported_fns(dir);
+    CACHE.lock().unwrap().get_or_insert_with(Default::default).insert(dir.to_path_buf(), v.clone());
+    v
+}
+
+fn scan_exported_fns(dir: &Path) -> Vec<FnSig> {
     let mut out: Vec<FnSig> = vec![];
     let mut files: Vec<_> = std::fs::read_dir(dir).map(|d| d.filter_map(|e| e.ok()).map(|e| e.path()).collect()).unwrap_or_default();
     files.sort();
@@ -148,6 +159,14 @@ pub fn exported_fns(dir: &Path) -> Vec<FnSig> {
     out
 }
 
+static EXTRA_STRINGS: std::sync::Mutex<Vec<String>> = std::sync::Mutex::new(Vec::new());
+
+/// Strings of the scenario's own universe (chain names, message ids) that `String` parameters of
+/// unknown functions are filled from, ahead of the generic ones.
+pub fn set_strings(v: &[&str]) {
+    *EXTRA_STRINGS.lock().unwrap() = v.iter().map(|s| s.to_string()).collect();
+}
+
 /// A few argument values for a parameter of the given written type; None when the type is not
 /// one the harness can build (the function is then reported as not driven).
 pub fn synth(w: &World, ty: &str, addresses: &[Address]) -> Option<Vec<Val>> {
@@ -155,7 +174,11 @@ pub fn synth(w: &World, ty: &str, addresses: &[Address]) -> Option<Vec<Val>> {
     let t = ty.trim().trim_start_matches('&').trim();
     Some(match t {
         "Address" => addresses.iter().map(|a| a.to_val()).collect(),
-        "String" => vec![to_val(env, &sstr("ethereum")), to_val(env, &sstr(""))],
+        "String" => {
+            let mut v: Vec<Val> = EXTRA_STRINGS.lock().unwrap().iter().map(|s| to_val(env, &sstr(s))).collect();
+            v.extend([to_val(env, &sstr("ethereum")), to_val(env, &sstr(""))]);
+            v
+        }
         "Bytes" => vec![to_val(env, &sbytes(&[0x12, 0x34]))],
         "BytesN<32>" => vec![to_val(env, &sbytes(&[7u8; 32]))],
         "u32" => vec![w.v(0u32), w.v(1u32)],
